@@ -374,6 +374,15 @@ func c11(o Opts) error {
 			}
 		}
 	}
+	// grammar-level malformation of the text formats
+	for gi, d := range grammarDocs(rng, thorough) {
+		res.Count("grammar:" + d.Format)
+		org := fmt.Sprintf("gram:%s:%d:%s", d.Format, gi, d.Label)
+		add(&Case{Kind: "read", Mode: "fmt:" + d.Format, Origin: org, Threads: 1, Validate: true, Max: 1 << 20, Size: 4096, data: []byte(d.Data)})
+		if d.Format != "line" && (gi%3 == 0 || strings.HasPrefix(d.Label, "grid:")) {
+			add(&Case{Kind: "read", Mode: Pick(rng, []string{"auto-seek", "auto-stream"}), Origin: org, Threads: 1, Validate: true, Max: 1 << 20, Size: 4096, data: []byte(d.Data)})
+		}
+	}
 	// raw noise through auto-detection
 	for i := 0; i < map[bool]int{false: 300, true: 5000}[thorough]; i++ {
 		n := rng.Intn(64)
